@@ -140,6 +140,14 @@ claim("C03",
       "Partial: no single theorem over all type graphs (steps + per-document evaluation). Relative to TsSem; no TypeScript compiler offline (syntactic validity = the reader understands the whole file). Trusted: the TypeScript reader, the test binary driver.",
       "Coq proof (per-former inclusion lemmas) + parsed-declaration correspondence + inhabitation of every real document evaluated in Coq", "DESIGN.md §5 C03")
 
+claim("C04",
+      "Coq: the six PL/pgSQL validator templates as an AST with their evaluation over jsonb under three-valued logic (Sem/PgSem.v), the Go wire shapes (Sem/GoJson.v), the single-point corruptions of a document at every position from the five classes (Sem/Corrupt.v), "
+      "and a decidable agreement between a script and a shape environment (Sem/PgSim.v: a closed table of (validator, shape) pairs). Theorems, for any script, shapes and table satisfying it: every document of the shape, of any size and depth, passes the CHECK; "
+      "every single-point corruption evaluates to false; every called validator is defined. On every run the real script is parsed into the AST, compared function by function and CHECK by CHECK with the model (Model/SqlJson.v: typeID/functionName/codeFor*), "
+      "the premise is computed for every jsonb column, and every document the real Go encoder writes for the column plus all its corruptions are evaluated in Coq (search for the failing input).",
+      "PgSem is a reading of the PostgreSQL manual (no server offline); jsonb numbers limited to the literals Go writes; RAISE WARNING ignored. Trusted: the script reader (any text outside the six templates is reported), the test binary driver.",
+      "Coq proof (acceptance and refusal theorems under a computed agreement premise) + parsed-script correspondence + evaluation of real documents and their corruptions in Coq", "DESIGN.md §5 C04")
+
 NOT_YET = "check not built yet in this round (planned, see DESIGN.md §6)"
 
 checks, na = [], []
